@@ -21,8 +21,24 @@ import driver
 CATALOG = os.path.join(driver.VERIF, "kani", "harnesses.json")
 
 
-def _prepare(scratch):
+def _prepare(scratch, names=None):
     shutil.copytree(os.path.join(driver.VERIF, "kani"), os.path.join(scratch, "kani"))
+    if names is not None:
+        # `cargo kani` generates code for EVERY harness of the crate before it runs the selected one (25 minutes
+        # for the whole catalog): in the scratch copy the harnesses that are not asked for lose their
+        # #[kani::proof] attribute (they become dead code), nothing else is touched
+        keep = set(names)
+        srcdir = os.path.join(scratch, "kani", "src")
+        for fn in os.listdir(srcdir):
+            pth = os.path.join(srcdir, fn)
+            with open(pth) as f:
+                txt = f.read()
+            def drop(m):
+                return m.group(0) if m.group(2) in keep else "#[allow(dead_code)]\nfn " + m.group(2)
+            txt = re.sub(r"(#\[kani::proof\]\s*(?:#\[kani::unwind\(\d+\)\]\s*)?)fn (\w+)", drop, txt)
+            txt = re.sub(r"(?m)^be_check!\((\w+),[^;]*;\s*$", lambda m: m.group(0) if m.group(1) in keep else "", txt)
+            with open(pth, "w") as f:
+                f.write(txt)
     os.makedirs(os.path.join(scratch, "repo"))
     shutil.copytree(os.path.join(driver.REPO, "src"), os.path.join(scratch, "repo", "src"))
     with open(os.path.join(driver.REPO, "Cargo.toml")) as f:
@@ -104,7 +120,7 @@ def run(pid, pcfg, tier, seed, workdir):
     scratch = tempfile.mkdtemp(prefix=f"ppp-kani-{pid}-")
     results = []
     try:
-        _prepare(scratch)
+        _prepare(scratch, names)
         # build once so that the parallel runs do not all compile
         first = catalog[names[0]]
         results.append(_run_one(scratch, first, first.get("timeout_s", 900)))
@@ -155,7 +171,7 @@ def replay(pid, rec):
         return 2
     scratch = tempfile.mkdtemp(prefix=f"ppp-kani-replay-")
     try:
-        _prepare(scratch)
+        _prepare(scratch, [h["name"]])
         r = _run_one(scratch, h, h.get("timeout_s", 900))
     finally:
         shutil.rmtree(scratch, ignore_errors=True)
